@@ -130,6 +130,10 @@ def nt_recv_or_clnt(mode, case):
     return nt_recv(mode, case) if case.startswith("RS") else nt_clnt(mode, case)
 
 
+def nt_conc_or_clnt(mode, case):
+    return nt_clnt(mode, case) if case.split(" ", 1)[0] in ("CL", "CI", "CT", "SOAK") else nt_conc(mode, case)
+
+
 def nt_conc(mode, case):
     # non-trivial: at least two requests outstanding at once (two arrivals before a send), distinct by content
     t = case.split()
@@ -138,7 +142,7 @@ def nt_conc(mode, case):
     return h(case[:200000]) if case.count(" A ") >= 3 else None
 
 
-NONTRIVIAL = {"C03": nt_conc, "C07": nt_conc, "C08": nt_conc, "C11": nt_conc, "C04": nt_srvseq, "C05": nt_srvseq, "C12": nt_srvseq, "C09": nt_clnt, "C10": nt_clnt,
+NONTRIVIAL = {"C03": nt_conc, "C07": nt_conc, "C08": nt_conc_or_clnt, "C11": nt_conc, "C04": nt_srvseq, "C05": nt_srvseq, "C12": nt_srvseq, "C09": nt_clnt, "C10": nt_clnt,
               "C16": nt_tree, "C17": nt_tree, "C18": nt_tree, "C14": nt_ufs, "C15": nt_ufs, "C20": nt_log, "C01": nt_codec, "C02": nt_codec, "C13": nt_recv_or_clnt}
 
 
@@ -205,7 +209,8 @@ PROPS = {
     },
     "C08": {
         "clauses": ["C08"],
-        "modes": [{"name": "srvconc", "harness": "srvconc", "modelcheck": "conc"}],
+        "modes": [{"name": "srvconc", "harness": "srvconc", "modelcheck": "conc"},
+                  {"name": "clnt", "harness": "clnt", "modelcheck": "clnt"}],
         "rule": "requests held blocked in the implementation while others are issued, answered and must complete (every history must finish within its deadline), release in random orders, tag groups of 2/3/5/8 requests sharing one tag mixed with other tags, Maxpend 0/1/4. Replay through the LTS plus oracle: group members are handed to the implementation in arrival order, one at a time, replies in arrival order, none starved; no request waits for an unrelated blocked one. Non-trivial: >= 3 requests; distinct by content.",
         "level_text": "Coq theorems (Props/C08.v) over the life-cycle LTS, for EVERY reachable state: a Respond in progress can be completed using only steps of that invocation and of the send goroutine (constructively: a finite step sequence exists), whatever other requests are blocked in the implementation; a worker that does not wait for the implementation can always take its next step; of requests sharing a tag the newer one is not started before the older one's reply has been queued, and their replies are written in arrival order. 'Never delays' is rendered as: no step of a request's own path depends on another request.",
         "level_note": "Trusted: Coq kernel; extraction + OCaml driver; the Go harness: the translation of the library's schedule points (verifPoint hooks, logged under one mutex inside the library's own critical sections) into LTS labels, the scripted implementation, the fake transport. The LTS over-approximates call/return of nested Respond calls (every real schedule is a schedule of the LTS); mutex atomicity, channel FIFO/rendezvous and goroutine semantics of the Go runtime are assumed; the fid table and message contents are abstracted (C04/C05 and content ids); reply-buffer recycling between requests is exercised by the harness only. Print Assumptions: closed under the global context. Scheduler fairness and transport progress (the send goroutine gets to run, the peer reads) are assumed; several connections share no state in the model (one LTS per connection).",
